@@ -211,6 +211,39 @@ def gen_tiny(r, cid, allow, kinds=KINDS_ALL, mode="wrapping", final="drop"):
     return dict(id=cid, env=env, progs=progs, final=final, seed=0, gen="random", sched=None)
 
 
+def enum_tiny(prop, mode="wrapping"):
+    """a systematic family of tiny configurations, used by the widened search: every source kind, lengths 0-2, two
+    threads, every unordered pair of programs made of one or two operations of a small alphabet (single pull, chunk
+    pulls of 1 and 2, skip_to_end, has_more, a buffered pull of 2)"""
+    alpha = [["next:idval"], ["chunk:2:9"], ["chunk:1:9"], ["skip"], ["more"], ["bufnew:2", "bufnext:9"]]
+    progs = []
+    for a in alpha:
+        progs.append(list(a))
+    for a in alpha:
+        for b in alpha:
+            progs.append(list(a) + list(b))
+    for p in progs:
+        if any(o.startswith("bufnew") for o in p):
+            p.append("bufdrop")
+    kinds = [("slice", "exact", None), ("vec", "exact", None), ("array", "exact", None), ("range", "exact", None),
+             ("iter", "exact", True), ("iter", "inexact", False), ("iter", "none", True)]
+    if prop == "C07":
+        kinds = [k for k in kinds if k[0] == "iter"]
+    if prop in ("C08", "C15"):
+        kinds = [k for k in kinds if k[0] in ("vec", "array", "iter")]
+    out = []
+    n = 0
+    for kind, hint, owning in kinds:
+        for ln in (1, 2, 0):
+            for i in range(len(progs)):
+                for j in range(i, len(progs)):
+                    env = mk_env(kind, ln, hint=hint, owning=owning, mode=mode)
+                    out.append(dict(id="%s-enum-%s-%d" % (prop, mode[0], n), env=env, progs=[list(progs[i]), list(progs[j])],
+                                    final="drop", seed=0, gen="random", sched=None))
+                    n += 1
+    return out
+
+
 def gen_bufseq(r, cid, mode):
     """buffered chunk iterators that are consumed partly: the re-used buffer of the wrapped iterator, short last chunks"""
     kind = r.weighted([("iter", 7), ("vec", 1), ("array", 1), ("slice", 1)])
